@@ -172,7 +172,9 @@ class CobaRandom:
             tot = sum(weights)
             if tot == 0: raise ValueError("The sum of weights cannot be zero.")
             #strictly less so that an item with zero weight is never chosen (the uniform can be exactly 0)
-            return next(compress(seq, map((next(self._randu)*tot).__lt__, accumulate(weights))))
+            #the < operator (not float.__lt__, which answers NotImplemented for a Fraction) so that every real weight type compares
+            r = next(self._randu)*tot
+            return next(compress(seq, (r < w for w in accumulate(weights))))
 
     def choicew(self, seq: Sequence[Any], weights:Sequence[float] = None) -> Tuple[Any,float]:
         """Choose a random item from the given sequence.
